@@ -765,8 +765,12 @@ mod child {
                 }
             };
             let is_head = buf.starts_with(b"HEAD ");
+            // objects below a CDN path are answered with a body that names the requested path: two different CDN objects
+            // never have the same bytes (used by the CDN injectivity histories)
+            let req_path = String::from_utf8_lossy(&buf[..end]).split_whitespace().nth(1).unwrap_or("").to_string();
             buf.drain(..end);
-            let body = BPSV_DOC.as_bytes();
+            let cdn_body = format!("CDN-OBJECT {req_path}\n");
+            let body = if req_path.starts_with("/inj/") { cdn_body.as_bytes() } else { BPSV_DOC.as_bytes() };
             let mut resp = format!("HTTP/1.1 200 OK\r\nContent-Type: text/plain\r\nContent-Length: {}\r\nConnection: keep-alive\r\n\r\n", body.len()).into_bytes();
             if !is_head {
                 resp.extend_from_slice(body);
@@ -845,6 +849,39 @@ mod child {
             m.class = "control".into();
             for _ in 0..2 {
                 c.window(&m, || O::from(bo(cdn.download(&good, ContentType::Data, &key)), |d| format!("bytes={}", d.len())));
+            }
+        }
+        // injectivity of the CDN cache: the config, data and patch object and the archive index that share one hash are
+        // four different things; asked for in any order through one cache, each request returns its own object — also
+        // the second time round, when the cache answers
+        {
+            let inj = endpoint(&host, "inj/wow");
+            let kinds: [(&str, Option<ContentType>); 4] = [("config", Some(ContentType::Config)), ("data", Some(ContentType::Data)), ("patch", Some(ContentType::Patch)), ("archive-index", None)];
+            for hno in 0..c.pick(4, 16) {
+                let key = rng.array::<16>();
+                let hx = hex::encode(key);
+                let mut order: Vec<usize> = (0..4).collect();
+                rng.shuffle(&mut order);
+                let mut results: Vec<Value> = Vec::new();
+                for pass in 0..2 {
+                    for &k in &order {
+                        let (kname, ct) = kinds[k];
+                        let api = if ct.is_some() { "CdnClient::download" } else { "CdnClient::download_archive_index" };
+                        let mut m = Meta::new(api, v, &root, &format!("{kname}:{hx}"));
+                        m.variant = format!("{v}/objects-sharing-one-hash");
+                        m.class = "well-formed".into();
+                        let (outcome, msg) = c.window(&m, || {
+                            let r = match ct {
+                                Some(ct) => bo(cdn.download(&inj, ct, &key)),
+                                None => bo(cdn.download_archive_index(&inj, &hx)),
+                            };
+                            O::from(r, |d| format!("len={} fnv={:016x}", d.len(), fnv64(&d)))
+                        });
+                        results.push(json!({"kind": kname, "pass": pass, "outcome": outcome, "body": msg}));
+                    }
+                }
+                let rec = json!({"t":"cdn-inj","hash":hx,"n":hno,"order":order.iter().map(|&k| kinds[k].0).collect::<Vec<_>>(),"results":results});
+                c.emit(&rec);
             }
         }
         // content keys of every length 0..=32 (and a few longer ones)
@@ -2121,6 +2158,7 @@ mod parent {
         let mut calls: HashMap<u64, CallRec> = HashMap::new();
         let mut pures: Vec<Value> = Vec::new();
         let mut readbacks: Vec<Value> = Vec::new();
+        let mut cdn_inj: Vec<Value> = Vec::new();
         let mut declared_calls = 0u64;
         for line in journal.lines() {
             let Ok(v) = serde_json::from_str::<Value>(line) else { continue };
@@ -2133,6 +2171,7 @@ mod parent {
                 Some("done") => declared_calls = v.get("calls").and_then(Value::as_u64).unwrap_or(0),
                 Some("pure") => pures.push(v.clone()),
                 Some("readback") => readbacks.push(v.clone()),
+                Some("cdn-inj") => cdn_inj.push(v.clone()),
                 Some("call") => {
                     let n = v.get("n").and_then(Value::as_u64).unwrap_or(0);
                     let rec = CallRec {
@@ -2475,6 +2514,50 @@ mod parent {
                     json!({"key":kid,"readback":result,"root":rb.get("root")}),
                 );
             }
+        }
+
+        // ---- CDN objects that share one hash: four requests, four different objects, in both passes ----
+        for rec in &cdn_inj {
+            let results = rec.get("results").and_then(Value::as_array).cloned().unwrap_or_default();
+            ctx.eval();
+            ctx.obs("injectivity.cdn.hashes", 1);
+            let mut first: BTreeMap<String, String> = BTreeMap::new();
+            let mut judged = true;
+            for r in &results {
+                let kind = r.get("kind").and_then(Value::as_str).unwrap_or("").to_string();
+                let body = r.get("body").and_then(Value::as_str).unwrap_or("").to_string();
+                if r.get("outcome").and_then(Value::as_str) != Some("ok") {
+                    // a refused / failed download is not judged here (the mock answers every path)
+                    ctx.obs("injectivity.cdn.request_failed(not judged)", 1);
+                    judged = false;
+                    continue;
+                }
+                ctx.obs("injectivity.cdn.requests_ok", 1);
+                match first.get(&kind) {
+                    None => {
+                        if let Some((other, _)) = first.iter().find(|(_, b)| **b == body) {
+                            ctx.violation(
+                                "C20|CdnClient|key-collision|objects-sharing-one-hash-answered-with-one-another",
+                                "two different CDN objects with the same hash (config / data / patch file, archive index) were answered with the same bytes through one cache",
+                                json!({"hash": rec.get("hash"), "order": rec.get("order"), "kind_a": other, "kind_b": kind, "results": results}),
+                            );
+                        }
+                        first.insert(kind, body);
+                    }
+                    Some(b) if *b != body => ctx.violation(
+                        "C20|CdnClient|key-collision|second-request-answered-with-another-object",
+                        "the second request for a CDN object returned other bytes than the first one",
+                        json!({"hash": rec.get("hash"), "order": rec.get("order"), "kind": kind, "results": results}),
+                    ),
+                    Some(_) => {}
+                }
+            }
+            if judged {
+                ctx.obs("injectivity.cdn.hashes_fully_judged", 1);
+            }
+        }
+        if !cdn_inj.is_empty() && ctx.get_obs("injectivity.cdn.hashes_fully_judged") == 0 {
+            ctx.inconclusive("no CDN injectivity history was answered completely by the mock server");
         }
 
         // ---- pure path builders (fixed-width binary keys): result must stay inside the directory ----
